@@ -713,7 +713,7 @@ func judgeHTTP(res *vkit.Result, e *env, c Case) {
 			wants = append(wants, want{name: "id_token", verify: verifyIDToken})
 			if c.RT == "id_token token" {
 				wants = append(wants, want{name: "access_token", verify: func(got string) string {
-					ui := out.agent.UserInfo(got)
+					ui := e.ag.UserInfo(got)
 					if ui.Panic != nil || !ui.Success() || ui.Str("sub") != subject {
 						return fmt.Sprintf("%q is not accepted by the userinfo endpoint: %s", clip(got), ui.Describe())
 					}
@@ -886,6 +886,15 @@ func judgeDirect(res *vkit.Result, e *env, c Case) {
 		add("state", c.State)
 	case "error":
 		ev, code, desc, ok := buildError(c)
+		if c.ErrRef > 0 {
+			// the long-lived value of the sequence: the same instance for every step that refers to it
+			ok = c.ErrRef <= len(e.shared) && e.shared[c.ErrRef-1].ok
+			if ok {
+				se := e.shared[c.ErrRef-1]
+				ev, code, desc = se.val, se.code, se.desc
+				res.Label("error-value:shared")
+			}
+		}
 		if !ok {
 			res.Grey = true
 			res.Label("grey:error-not-constructible")
@@ -1002,6 +1011,16 @@ func validCase(c Case) bool {
 			return false
 		}
 	}
+	for _, sp := range c.SharedErrs {
+		if !utf8.ValidString(sp.Code) || !utf8.ValidString(sp.Desc) {
+			return false
+		}
+	}
+	for _, s := range c.Steps {
+		if !validCase(s) {
+			return false
+		}
+	}
 	return true
 }
 
@@ -1017,14 +1036,168 @@ func run(c Case) (res *vkit.Result) {
 		res.Label("grey:not-utf8")
 		return res
 	}
+	if c.Via == "seq" {
+		runSeq(res, c)
+		return res
+	}
+	runOne(res, newEnv(c.Router, nil), c)
+	return res
+}
+
+// writesForm: does the step render the form_post page (given that nothing fails before)?
+func writesForm(s Case) bool {
+	return s.Via == "form" || (s.Via == "http" && s.Mode == "form_post" && s.ErrPath == "none")
+}
+
+// closing is the fixed last response of a sequence that had a broken writer: one more form_post page, so that what an
+// aborted response left behind in the process is seen inside the sequence that caused it (and not by the next case).
+var closing = Case{Via: "form", Mode: "form_post", RT: "code", Resp: "code", URI: "https://rp.example.com/cb?tenant=z", URIKind: "https",
+	State: "closing+/= state", Code: "closing-c0de", Scopes: []string{"openid"}}
+
+// runSeq produces the responses of all steps with ONE provider (and one process-wide library state) and judges each
+// of them with the per-response oracle.
+func runSeq(res *vkit.Result, c Case) {
+	steps := c.Steps
+	if len(steps) > 8 {
+		steps = steps[:8]
+	}
+	e := newEnv(c.Router, c.SharedErrs)
+	aborted := 0
+	for _, s := range steps {
+		if s.BrokenWriter {
+			aborted++
+		}
+	}
+	if aborted > 0 {
+		cl := closing
+		cl.Router = c.Router
+		steps = append(append([]Case(nil), steps...), cl)
+		res.Label("seq:closing-form")
+	}
+	res.Grey = true
+	keys := []string{}
+	perStep := []any{}
+	for i, s := range steps {
+		s.Router = c.Router
+		sub := &vkit.Result{}
+		func() {
+			defer func() {
+				if p := recover(); p != nil {
+					sub.Fail("C11:panic@"+vkit.FirstLibFrame(string(debug.Stack())), "panic: %v", p)
+				}
+			}()
+			if s.Via == "seq" {
+				sub.Grey = true
+				return
+			}
+			runOne(sub, e, s)
+		}()
+		for _, v := range sub.Viol {
+			res.Viol = append(res.Viol, vkit.Violation{FP: v.FP, Msg: fmt.Sprintf("step %d of %d on one provider (%s): %s", i+1, len(steps), historyOf(steps[:i]), v.Msg)})
+		}
+		res.Labels = append(res.Labels, sub.Labels...)
+		res.NonTrivial = res.NonTrivial || sub.NonTrivial
+		res.Grey = res.Grey && sub.Grey
+		keys = append(keys, sub.Key)
+		perStep = append(perStep, sub.Info)
+	}
+
+	// classes of histories
+	res.Label("via:seq", fmt.Sprintf("seq:len:%d", len(c.Steps)))
+	if aborted > 0 {
+		res.Label("seq:has-aborted-write")
+	}
+	modesSeen, outcomes, refUses := map[string]bool{}, map[string]bool{}, map[int]int{}
+	abortedForm, formAfterAbort, ssOnRef, ssThenNone := false, false, map[int]bool{}, false
+	for _, s := range c.Steps {
+		modesSeen[s.Mode] = true
+		outcomes[outcomeOf(s)] = true
+		if writesForm(s) {
+			if abortedForm && !s.BrokenWriter {
+				formAfterAbort = true
+			}
+			abortedForm = abortedForm || s.BrokenWriter
+		}
+		if s.ErrRef > 0 && s.Resp == "error" && s.Via != "http" {
+			refUses[s.ErrRef]++
+			if s.SessionState != "" {
+				ssOnRef[s.ErrRef] = true
+			} else if ssOnRef[s.ErrRef] && (s.Via == "autherror" || s.Via == "tryerror") && !s.BrokenWriter {
+				ssThenNone = true
+			}
+		}
+	}
+	if len(modesSeen) > 1 {
+		res.Label("seq:mixed-modes")
+	}
+	if len(outcomes) > 1 {
+		res.Label("seq:success-and-error")
+	}
+	if abortedForm {
+		res.Label("seq:aborted-form_post-page")
+	}
+	if formAfterAbort {
+		res.Label("seq:form_post-after-aborted-form_post")
+	}
+	for _, n := range refUses {
+		if n > 1 {
+			res.Label("seq:error-value-answered-repeatedly")
+			break
+		}
+	}
+	if ssThenNone {
+		res.Label("seq:error-value:with-session_state-then-without")
+	}
+	res.Key = "seq|" + c.Router + "|" + strings.Join(keys, "||")
+	fps := []string{}
+	for _, v := range res.Viol {
+		fps = append(fps, v.FP)
+	}
+	res.Info = map[string]any{"violations": fps, "steps": perStep}
+}
+
+func outcomeOf(c Case) string {
+	if c.Resp == "error" || (c.Via == "http" && c.ErrPath != "none") {
+		return "error"
+	}
+	return "success"
+}
+
+// historyOf: one word per earlier step, for the violation message.
+func historyOf(prev []Case) string {
+	if len(prev) == 0 {
+		return "first response"
+	}
+	w := []string{}
+	for _, s := range prev {
+		d := s.Via + "/" + outcomeOf(s)
+		if s.Mode != "" {
+			d += "/" + s.Mode
+		}
+		if s.ErrRef > 0 {
+			d += fmt.Sprintf("/shared-error-%d", s.ErrRef)
+		}
+		if s.SessionState != "" {
+			d += "/session_state"
+		}
+		if s.BrokenWriter {
+			d += fmt.Sprintf("/writer-broke-after-%d-bytes", s.Accept)
+		}
+		w = append(w, d)
+	}
+	return "after " + strings.Join(w, ", ")
+}
+
+// runOne produces one response with the provider of e and judges it.
+func runOne(res *vkit.Result, e *env, c Case) {
 	switch c.Via {
 	case "http":
-		judgeHTTP(res, c)
+		judgeHTTP(res, e, c)
 	case "url", "form", "autherror", "tryerror":
-		judgeDirect(res, c)
+		judgeDirect(res, e, c)
 	default:
 		res.Grey = true
-		return res
+		return
 	}
 
 	values := []string{c.State, c.SessionState, c.Code, c.AccessToken, c.IDToken, c.ErrDesc, c.ErrCode}
@@ -1044,10 +1217,7 @@ func run(c Case) (res *vkit.Result) {
 	}
 	sort.Strings(classes)
 	uriQ := len(preQuery(c.URI)) > 0
-	outcome := "success"
-	if c.Resp == "error" || (c.Via == "http" && c.ErrPath != "none") {
-		outcome = "error"
-	}
+	outcome := outcomeOf(c)
 	what := c.Resp
 	if c.Via == "http" {
 		what = c.ErrPath
@@ -1077,20 +1247,25 @@ func run(c Case) (res *vkit.Result) {
 	}
 	res.NonTrivial = len(classes) > 0 || uriQ
 	res.Key = fmt.Sprintf("%s|%s|%s|%s|%s|%s|q=%v|f=%v|%v", c.Via, c.Router, modeL, c.RT, what, c.URIKind, uriQ, strings.Contains(c.URI, "#"), classes)
+	if c.BrokenWriter {
+		res.Key += fmt.Sprintf("|broken@%d", c.Accept/100)
+	}
+	if c.ErrRef > 0 {
+		res.Key += fmt.Sprintf("|shared%d", c.ErrRef)
+	}
 	fps := []string{}
 	for _, v := range res.Viol {
 		fps = append(fps, v.FP)
 	}
 	obs := []string{}
 	for _, l := range res.Labels {
-		for _, p := range []string{"channel:", "http:", "form-action:", "form_post-error-delivered-by:", "grey:", "markup-only", "form:refused"} {
+		for _, p := range []string{"channel:", "http:", "form-action:", "form_post-error-delivered-by:", "grey:", "markup-only", "form:refused", "aborted:", "error-value:"} {
 			if strings.HasPrefix(l, p) {
 				obs = append(obs, l)
 			}
 		}
 	}
 	res.Info = map[string]any{"violations": fps, "observed": obs}
-	return res
 }
 
 func hasRepeatedKey(q url.Values) bool {
@@ -1109,7 +1284,9 @@ var prop = vkit.Prop[Case]{
 		"redirect URI (https, http, loopback, IPv6, custom scheme incl. opaque; 0-4 pre-existing query pairs with repeated keys, '+', %20, escaped delimiters, bare keys; optional fragment; for AuthResponseFormPost also hostile strings). " +
 		"Decoding as a user agent: query = form-decoded RawQuery of the Location, fragment = text after '#' of the raw Location form-decoded once, form = golang.org/x/net/html parse tree compared with the fixed skeleton. " +
 		"Excluded from the value domain (counted as grey labels): invalid UTF-8; NUL / CR / LF in form_post values (HTML cannot carry them); registered URIs whose own query uses a response parameter name, contains ';' or bad escapes, userinfo; action equality for non-http(s) schemes (html/template's inert #ZgotmplZ accepted) and hostile URIs. " +
-		"non-trivial = some value has a character outside [A-Za-z0-9_-] or the redirect URI has a query; distinct = (path, router, mode, type, response kind / error path, URI kind, query?, fragment?, set of character classes)",
+		"One case in four is a SEQUENCE of 2-5 such responses (success and error, mixed modes / types / paths, auth requests with and without session state) produced one after the other by ONE provider in one process: some steps write to a ResponseWriter that accepts 0-700 body bytes and fails from then on (not judged: nothing arrives; a fixed closing form_post response follows), some error steps answer one of 0-2 long-lived error VALUES of the sequence (typed / JSON-decoded *oidc.Error, optionally wrapped, or plain) instead of a fresh one; every step is judged with the per-response oracle. " +
+		"Per response: each parameter of THIS response is recovered exactly once and unchanged, and no named response parameter the provider did not produce for it (code, state, session_state, tokens, error, error_description) arrives with a value. " +
+		"non-trivial = some value has a character outside [A-Za-z0-9_-] or the redirect URI has a query; distinct = (path, router, mode, type, response kind / error path, URI kind, query?, fragment?, set of character classes[, broken writer, shared error]); a sequence = the list of its steps' classes",
 	Gen: genCase,
 	Run: run,
 }
